@@ -163,6 +163,19 @@ def _nmax(tier):
     return 40 if tier == "thorough" else 26
 
 
+def _spell(est, case):
+    """The estimator name as the caller writes it (the documented names are matched without regard to letter case)."""
+    how = case.get("spelling", "lower")
+    if how == "Capital":
+        return est.capitalize()
+    if how == "UPPER":
+        return est.upper()
+    if how == "mIxEd":
+        return "".join(ch.upper() if i % 2 else ch for i, ch in enumerate(est))
+    return est
+
+
+
 @st.composite
 def _npoints(draw, tier):
     # Hypothesis over-samples the ends of an integer range: keep the tiny sets in the middle
@@ -315,6 +328,7 @@ def gen_iso(draw, tier="quick"):
         "fields": draw(_fields(n)),
         "edges": edges,
         "estimator": draw(st.sampled_from(["matheron", "cressie"])),
+        "spelling": draw(st.sampled_from(["lower", "lower", "Capital", "UPPER", "mIxEd"])),
         "flat_args": draw(st.booleans()),
         # how the public wrapper is told about the missing values (the oracle always works on the NaN pattern)
         "missing_as": draw(st.sampled_from(["nan", "masked_stack", "masked_list", "no_data"])),
@@ -360,7 +374,7 @@ def check_iso(case, rec):
         if not ov.standard_bins_euclid(pos, 1)[-1] > 0.0:
             rec.exclude("degenerate_standard_bins")  # all points coincide: no increasing edges
             return
-        res = lib(gs.vario_estimate, w_pos, w_field, estimator=est, return_counts=True, _tags=tags)
+        res = lib(gs.vario_estimate, w_pos, w_field, estimator=_spell(est, case), return_counts=True, _tags=tags)
         require(len(res) == 3, "vario_estimate(return_counts=True) does not return 3 items", tags)
         nb = int(np.size(res[0]))
         require(nb >= 1, "standard bins: no bin returned", dict(tags, kind="standard_bins"))
@@ -398,7 +412,7 @@ def check_iso(case, rec):
     rec.discrepancy("values", rel if msg is None else 0.0, VTOL)
     require(msg is None, f"estimator.unstructured: {msg}", dict(tags, kind="mismatch", api="kernel"))
     # public wrapper
-    res = lib(gs.vario_estimate, w_pos, w_field, edges, estimator=est, return_counts=True, _tags=tags)
+    res = lib(gs.vario_estimate, w_pos, w_field, edges, estimator=_spell(est, case), return_counts=True, _tags=tags)
     require(len(res) == 3, "vario_estimate(return_counts=True) does not return 3 items", tags)
     require(
         np.array_equal(np.asarray(res[0]), np.array(_centers(edges))),
@@ -407,7 +421,7 @@ def check_iso(case, rec):
     )
     msg, rel = _mismatch(res[1], res[2], o_v, o_c)
     require(msg is None, f"vario_estimate: {msg}", dict(tags, kind="mismatch", api="vario_estimate"))
-    res2 = lib(gs.vario_estimate, w_pos, w_field, edges, estimator=est, _tags=tags)
+    res2 = lib(gs.vario_estimate, w_pos, w_field, edges, estimator=_spell(est, case), _tags=tags)
     require(
         len(res2) == 2 and np.array_equal(np.asarray(res2[1]), np.asarray(res[1])),
         "vario_estimate without return_counts differs from the call with counts",
@@ -418,12 +432,12 @@ def check_iso(case, rec):
         enc, kw = _encode_missing(fields, how)
         differing = len(fields) > 1 and len({tuple(np.isnan(r)) for r in np.array(fields, dtype=float)}) > 1
         rec.label("missing_as_" + how + ("_differing" if differing else ""))
-        res3 = lib(gs.vario_estimate, pos, enc, edges, estimator=est, return_counts=True, _tags=dict(tags, missing_as=how), **kw)
+        res3 = lib(gs.vario_estimate, pos, enc, edges, estimator=_spell(est, case), return_counts=True, _tags=dict(tags, missing_as=how), **kw)
         msg, rel = _mismatch(res3[1], res3[2], o_v, o_c)
         require(msg is None, f"vario_estimate with missing values given as {how}: {msg}", dict(tags, kind="mismatch", api="vario_estimate", missing_as=how))
         if how == "no_data":
             # a constant mean shifts every value alike: the marked entries stay missing, the pair counts stay exactly the same
-            res4 = lib(gs.vario_estimate, pos, enc, edges, estimator=est, return_counts=True, mean=2.5, _tags=dict(tags, missing_as=how), **kw)
+            res4 = lib(gs.vario_estimate, pos, enc, edges, estimator=_spell(est, case), return_counts=True, mean=2.5, _tags=dict(tags, missing_as=how), **kw)
             require(
                 np.array_equal(np.asarray(res4[2]), np.asarray(res3[2])),
                 f"vario_estimate(no_data=..., mean=2.5): pair counts {np.asarray(res4[2]).tolist()} differ from the counts without a mean {np.asarray(res3[2]).tolist()}",
@@ -484,6 +498,7 @@ def gen_latlon(draw, tier="quick"):
         "fields": draw(_fields(n)),
         "edges": edges,
         "estimator": draw(st.sampled_from(["matheron", "cressie"])),
+        "spelling": draw(st.sampled_from(["lower", "lower", "Capital", "UPPER", "mIxEd"])),
     }
 
 
@@ -524,7 +539,7 @@ def check_latlon(case, rec):
         ("kernel", lambda: kern.unstructured(f_np, e_np, p_np, EST[est], "h", 1)),
         (
             "vario_estimate",
-            lambda: gs.vario_estimate(pos, fields, list(edges), estimator=est, latlon=True, return_counts=True)[1:],
+            lambda: gs.vario_estimate(pos, fields, list(edges), estimator=_spell(est, case), latlon=True, return_counts=True)[1:],
         ),
     ]
     o_bad = None
@@ -654,6 +669,7 @@ def gen_dir(draw, tier="quick"):
         "fields": draw(_fields(n)),
         "edges": draw(_edges_lattice(dim, scale)) if lat else draw(_edges_float(scale, _reach(pos))),
         "estimator": draw(st.sampled_from(["matheron", "cressie"])),
+        "spelling": draw(st.sampled_from(["lower", "lower", "Capital", "UPPER", "mIxEd"])),
         "dirs": [[float(c) for c in v] for v in dirs],
         "dir_scale": [float(c) for c in cs],
         "dir_mode": mode,
@@ -757,7 +773,7 @@ def check_dir(case, rec):
             pos,
             fields,
             list(edges),
-            estimator=est,
+            estimator=_spell(est, case),
             direction=arg_dirs,
             angles_tol=tol,
             bandwidth=bw,
@@ -784,7 +800,7 @@ def check_dir(case, rec):
             _, _, info_a = ov.directional(fields, edges, pos, back, tol, bw, est)
             if not (info_a["near_angle"] or info_a["near_band"]):
                 o_av, o_ac, _ = ov.directional(fields, edges, pos, back, tol, bw, est)
-                res_a = lib(gs.vario_estimate, pos, fields, list(edges), estimator=est, angles=ang if nd > 1 else ang[0],
+                res_a = lib(gs.vario_estimate, pos, fields, list(edges), estimator=_spell(est, case), angles=ang if nd > 1 else ang[0],
                             angles_tol=tol, bandwidth=bw, return_counts=True, _tags=dict(tags, api="angles"))
                 rec.label("angles_keyword")
                 want_a = (o_av, o_ac) if nd > 1 else (o_av[0], o_ac[0])
@@ -838,6 +854,7 @@ def gen_axis(draw, tier="quick"):
         "mask": mask,
         "nan": nan,
         "estimator": draw(st.sampled_from(["matheron", "cressie"])),
+        "spelling": draw(st.sampled_from(["lower", "lower", "Capital", "UPPER", "mIxEd"])),
     }
 
 
@@ -887,7 +904,7 @@ def check_axis(case, rec):
     else:
         fld = data
     direction = axis if case["axis_as"] == "int" else "xyz"[axis]
-    wv = lib(gs.vario_estimate_axis, fld, direction, est, _tags=tags)
+    wv = lib(gs.vario_estimate_axis, fld, direction, _spell(est, case), _tags=tags)
     msg, rel = _mismatch(wv, None, o_v, None)
     require(msg is None, f"vario_estimate_axis: {msg}", dict(tags, kind="mismatch", api="vario_estimate_axis"))
     nonempty = sum(1 for c in o_c if c > 0)
